@@ -183,8 +183,10 @@ def op_obj(case, idx, auto_tag=True, auto_id=True):
     return o
 
 
-def build_doc(cases, auto_tag=True, auto_id=True, prefix=True):
-    """pack operations into one document; op i lives under /o<i><path> (distinct paths), tag t<i>, operationId op<i>"""
+def build_doc(cases, auto_tag=True, auto_id=True, prefix=True, refs=False):
+    """pack operations into one document; op i lives under /o<i><path> (distinct paths), tag t<i>, operationId op<i>.
+    refs=True: every parameter, response and request body is declared once under components/{parameters,responses,requestBodies}
+    (keyed by its full shape) and referenced with $ref - the same operations, written the way large real documents are."""
     paths = {}
     meta = []
     for i, c in enumerate(cases):
@@ -199,7 +201,40 @@ def build_doc(cases, auto_tag=True, auto_id=True, prefix=True):
         item[c["method"]] = op_obj(c, i, auto_tag, auto_id)
         meta.append({"index": i, "path": path, "method": c["method"].upper(), "tag": (c.get("tags") or [tag_name(i)])[0] if (c.get("tags") or auto_tag) else "default",
                      "op_id": c.get("op_id") or f"op{i}"})
-    return {"openapi": "3.0.3", "info": {"title": "O", "version": "1"}, "paths": paths, "components": {"schemas": copy.deepcopy(SCHEMAS)}}, meta
+    doc = {"openapi": "3.0.3", "info": {"title": "O", "version": "1"}, "paths": paths, "components": {"schemas": copy.deepcopy(SCHEMAS)}}
+    if refs:
+        comp = doc["components"]
+        comp["parameters"], comp["responses"], comp["requestBodies"] = {}, {}, {}
+
+        def key_of(prefix_, obj):
+            import hashlib
+
+            return prefix_ + hashlib.sha1(json.dumps(obj, sort_keys=True).encode()).hexdigest()[:8]
+
+        def lift_params(holder):
+            out = []
+            for p in holder.get("parameters", []):
+                k = key_of("P", p)
+                comp["parameters"][k] = p
+                out.append({"$ref": "#/components/parameters/" + k})
+            if out:
+                holder["parameters"] = out
+
+        for path, item in paths.items():
+            lift_params(item)
+            for m, o in item.items():
+                if m == "parameters":
+                    continue
+                lift_params(o)
+                if "requestBody" in o:
+                    k = key_of("B", o["requestBody"])
+                    comp["requestBodies"][k] = o["requestBody"]
+                    o["requestBody"] = {"$ref": "#/components/requestBodies/" + k}
+                for st, r in list(o["responses"].items()):
+                    k = key_of("R", r)   # the SAME component response is shared by every status / operation that declares this shape
+                    comp["responses"][k] = r
+                    o["responses"][st] = {"$ref": "#/components/responses/" + k}
+    return doc, meta
 
 
 def path_regex(template):
